@@ -105,6 +105,12 @@ class ElemTranslator(Translator):
         return super().binop(op, a, b, node)
 
     def call(self, node, env):
+        # <array>.copy(): same values, no longer a view of the attribute
+        if isinstance(node.func, ast.Attribute) and node.func.attr == "copy" \
+                and not node.args and not node.keywords:
+            v = self.expr(node.func.value, env)
+            if isinstance(v, Arr):
+                return Arr(list(v.items))
         d = self.dotted(node.func)
         kw = {k.arg: k.value for k in node.keywords}
         if d == "np.divide" and set(kw) == {"where", "out"}:
@@ -116,14 +122,25 @@ class ElemTranslator(Translator):
             where = self.expr(kw["where"], env)
             q = self.binop(ast.Div(), num, den, node)
             return self.merge(where, q, Const(0), node)
-        if d == "np.isclose" and not kw and len(node.args) == 2:
+        if d == "np.isclose" and set(kw) <= {"atol"} and len(node.args) == 2:
             a = self.expr(node.args[0], env)
             b = self.expr(node.args[1], env)
             if not isinstance(b, Const):
                 self.err("np.isclose second argument must be a constant", node)
-            # |a - b| <= atol + rtol * |b| with numpy's defaults
-            tol = Fraction(1, 10 ** 8) + Fraction(1, 10 ** 5) * abs(b.v)
-            tolc = self.sc(Const(tol), node)
+            # |a - b| <= atol + rtol * |b| with numpy's default rtol (and atol unless given);
+            # finite operands only (for nan/inf numpy compares with ==)
+            rel = Fraction(1, 10 ** 5) * abs(b.v)
+            if "atol" in kw:
+                at = self.expr(kw["atol"], env)
+                if isinstance(at, Arr):
+                    if len(at) != 1:
+                        self.err("np.isclose(atol=) must be one number per element", node)
+                    at = at.items[0]
+                if not self.is_num(at):
+                    self.err("np.isclose(atol=) is not a number", node)
+                tolc = self.sc(at if rel == 0 else self.binop(ast.Add(), at, Const(rel), node), node)
+            else:
+                tolc = self.sc(Const(Fraction(1, 10 ** 8) + rel), node)
 
             def one(x):
                 diff = x if b.v == 0 else self.binop(ast.Sub(), x, b, node)
@@ -229,7 +246,7 @@ def unit_c20stereo(repo):
     if not cls:
         raise Untranslatable("class StereographicProjection not found", None, rel)
     m = find_function(cls[0], "vector2xy")
-    want = ["v = v[v <= self.region]", "return _vector2xy(v, pole=self.pole)"]
+    want = ["v = v.unit", "v = v[v <= self.region]", "return _vector2xy(v, pole=self.pole)"]
     got = [ast.unparse(s) for s in strip_doc(m.body)]
     if not same_body(m.body, want):
         raise Untranslatable(f"StereographicProjection.vector2xy body changed: {got}", m, rel)
@@ -239,7 +256,8 @@ def unit_c20stereo(repo):
         raise Untranslatable(f"StereographicProjection.__init__ body changed: {got}", ini, rel)
     sp = find_function(cls[0], "vector2xy_split")
     got = [ast.unparse(s) for s in strip_doc(sp.body)]
-    want = ["(x_upper, y_upper) = _vector2xy(v[v <= _UPPER_HEMISPHERE], pole=-1)",
+    want = ["v = v.unit",
+            "(x_upper, y_upper) = _vector2xy(v[v <= _UPPER_HEMISPHERE], pole=-1)",
             "(x_lower, y_lower) = _vector2xy(v[v <= _LOWER_HEMISPHERE], pole=1)",
             "return (x_upper, y_upper, x_lower, y_lower)"]
     if not same_body(sp.body, want):
@@ -249,8 +267,8 @@ def unit_c20stereo(repo):
               "_LOWER_HEMISPHERE = SphericalRegion([0, 0, -1])"):
         if w not in glob:
             raise Untranslatable(f"module constant changed: {w}", None, rel)
-    text += ("\n(* structural check passed: vector2xy = _vector2xy(v[v <= SphericalRegion([0,0,-pole])], pole);"
-             "\n   vector2xy_split = (pole -1 on v <= [0,0,1], pole 1 on v <= [0,0,-1]) *)\n")
+    text += ("\n(* structural check passed: vector2xy = (v = v.unit; _vector2xy(v[v <= SphericalRegion([0,0,-pole])], pole));"
+             "\n   vector2xy_split = (v = v.unit; pole -1 on v <= [0,0,1], pole 1 on v <= [0,0,-1]) *)\n")
 
     # xy2vector(self, x, y)
     icl = [n for n in tree.body if isinstance(n, ast.ClassDef) and n.name == "InverseStereographicProjection"]
